@@ -6,3 +6,6 @@ mod rpc_server;
 mod start;
 
 pub use start::start;
+
+#[cfg(feature = "verif-hooks")]
+pub(crate) use rpc_server::{verif_rpc_methods, verif_start_rpc_server};
